@@ -80,11 +80,10 @@ func Harness_C05_global_readers() {
 	form := verifPick("form", 0, c05NumForms-1)
 	fn.Blocks = []*ssa.BasicBlock{{Index: 0, Instrs: []ssa.Instruction{&ssa.Jump{}}}, {Index: 1, Instrs: []ssa.Instruction{c05Reader(form, glob), &ssa.Return{}}}}
 	verifReach("scanned")
-	// forms outside the ones FnReadsFrom recognises today are the region of KF-C05-on-demand-global-forms
-	// (under triage against the CLI, DESIGN §5 D11)
-	unrecognisedForm := form == c05IndexAddr || form == c05Slice || form == c05CallArg || form == c05MakeInterface ||
-		form == c05ChangeType || form == c05Return || form == c05Phi
-	verifAssertKnown("function-reading-the-global-is-recognised", "KF-C05-on-demand-global-forms", unrecognisedForm, FnReadsFrom(fn, glob))
+	verifAssert("function-reading-the-global-is-recognised", FnReadsFrom(fn, glob))
+	// pure write positions are not reads
+	wr := &ssa.Function{Pkg: pkg, Blocks: []*ssa.BasicBlock{{Index: 0, Instrs: []ssa.Instruction{&ssa.Store{Addr: glob, Val: &ssa.Parameter{}}, &ssa.Return{}}}}}
+	verifAssert("function-only-writing-the-global-is-a-writer", FnWritesTo(wr, glob))
 	empty := &ssa.Function{Pkg: pkg, Blocks: []*ssa.BasicBlock{{Index: 0, Instrs: []ssa.Instruction{&ssa.Return{}}}}}
 	verifAssert("function-not-using-the-global-is-not-a-reader", !FnReadsFrom(empty, glob))
 }
